@@ -237,17 +237,85 @@ Section Spec.
       apply in_map. apply (scan_view_exact names_of cap s r c HI). auto.
   Qed.
 
+  (** ---- removals: what disappears from the cache map ---- *)
+  Lemma remove_hashes_lookup cap hs : forall s, Inv names_of cap s -> forall k,
+    alookup k (cache (remove_hashes hs s)) = if mem_str k hs then None else alookup k (cache s).
+  Proof.
+    unfold remove_hashes. induction hs as [|h hs IH]; intros s HI k; [reflexivity|].
+    cbn [fold_left]. rewrite IH by (apply remove_cached_inv; exact HI).
+    rewrite alookup_remove_cert. unfold mem_str at 2. cbn [existsb]. fold (mem_str k hs).
+    destruct (mem_str k hs); [rewrite orb_true_r; reflexivity|]. rewrite orb_false_r.
+    unfold cache_get. destruct (alookup h (cache s)) as [c|] eqn:E.
+    - destruct (inv_cert _ _ s HI h c E) as (Hh & _). rewrite Hh, (str_eqb_sym k h). reflexivity.
+    - cbn [zero_cert c_hash].
+      assert (Hnil : alookup [] (cache s) = None).
+      { pose proof (inv_not_mem_nil names_of cap s HI) as Hn. unfold amem in Hn.
+        destruct (alookup [] (cache s)); [discriminate | reflexivity]. }
+      destruct (str_eqb_spec [] k) as [<-|Hne].
+      + rewrite Hnil. destruct (str_eqb [] h); reflexivity.
+      + destruct (str_eqb_spec k h) as [->|Hne']; [exact E | reflexivity].
+  Qed.
+
+  Lemma managed_queue_mem cap s sj k c : Inv names_of cap s -> alookup k (cache s) = Some c ->
+    mem_str k (managed_queue s sj) = managed_gone sj k c.
+  Proof.
+    intros HI Ek. destruct (inv_cert _ _ s HI k c Ek) as (Hh & _).
+    apply Bool.eq_iff_eq_true. rewrite mem_str_In. unfold managed_queue, managed_gone.
+    rewrite in_flat_map, andb_true_iff, existsb_exists. split.
+    - intros (p & Hp & Hin). apply in_map_iff in Hin. destruct Hin as (c' & Hc' & Hf).
+      apply filter_In in Hf. destruct Hf as [Hg Hsel].
+      apply (lookup_exact names_of cap s HI) in Hg. destruct Hg as [Ec' Hn].
+      rewrite Hc', Ek in Ec'. injection Ec' as <-.
+      apply andb_true_iff in Hsel. destruct Hsel as [Hm Hi]. split; [exact Hm|].
+      exists p. split; [exact Hp|]. apply andb_true_iff. split; [apply mem_str_In; exact Hn | exact Hi].
+    - intros (Hm & p & Hp & Hsel). apply andb_true_iff in Hsel. destruct Hsel as [Hn Hi].
+      exists p. split; [exact Hp|]. apply in_map_iff. exists c. split; [exact Hh|].
+      apply filter_In. split.
+      + apply (lookup_exact names_of cap s HI). rewrite Hh. split; [exact Ek | apply mem_str_In; exact Hn].
+      + apply andb_true_iff. split; assumption.
+  Qed.
+
+  Lemma removal_ok_of_lookup cap gone (goneb : hash -> bool) s s' :
+    Inv names_of cap s -> NoDup (akeys (cache s')) ->
+    (forall k, alookup k (cache s') = if goneb k then None else alookup k (cache s)) ->
+    (forall k c, alookup k (cache s) = Some c -> gone k c = goneb k) ->
+    removal_ok gone s s' = true.
+  Proof.
+    intros HI Hnd Hl Hg. unfold removal_ok. apply andb_true_iff. split.
+    - apply forallb_forall. intros [k x] Hin. cbn [fst snd].
+      apply In_alookup in Hin; [|exact Hnd]. rewrite Hl in Hin.
+      destruct (goneb k) eqn:Eg; [discriminate|]. rewrite Hin, cert_eqb_refl, (Hg k x Hin), Eg. reflexivity.
+    - apply forallb_forall. intros [k c] Hin. cbn [fst snd].
+      apply In_alookup in Hin; [|apply (inv_nodup _ _ s HI)].
+      rewrite (Hg k c Hin). destruct (goneb k) eqn:Eg; [reflexivity|]. cbn [orb].
+      apply amem_alookup. exists c. rewrite Hl, Eg. exact Hin.
+  Qed.
+
   Lemma step_spec_model d o :
     DInv names_of d -> wf_dop names_of o -> step_spec_b (d_st d) (wstep_of d o) (d_st (dstep d o)) = true.
   Proof.
     intros HI Hwf. destruct o as [o|z vs|q| |r]; cbn [wstep_of step_spec_b dstep d_st].
-    - destruct o as [c v|c|old new v|hs|sj|c|upd|h v]; cbn [step]; try reflexivity.
+    - destruct o as [c v|c|old new v|hs|sj|c|upd|h v]; cbn [step].
       + unfold add_ok. rewrite (readd_ok_model (d_cap d)) by exact HI. apply add_cert_cached.
+      + (* removeCertificate(copy) *)
+        apply (removal_ok_of_lookup (d_cap d) _ (fun k => str_eqb k (c_hash c))); [exact HI | | |reflexivity].
+        * apply (inv_nodup names_of (d_cap d)). apply (step_inv names_of (d_cap d) _ (ORemoveCert c)); [exact HI | exact Hwf].
+        * intros k. rewrite alookup_remove_cert, (str_eqb_sym k). reflexivity.
       + unfold replace_ok, replace_cert. rewrite add_cert_cached. cbn [andb].
         destruct (str_eqb_spec (c_hash old) (c_hash new)) as [Heq|Hne]; [reflexivity|]. cbn [orb].
         apply negb_true_iff. destruct (amem (c_hash old) (cache (add_cert (d_cap d) new v (remove_cert old (d_st d))))) eqn:Em; [|reflexivity].
         apply add_cert_only_adds in Em. destruct Em as [Em|Em]; [congruence|].
         cbn [remove_cert cache] in Em. rewrite amem_adelete, str_eqb_refl in Em. discriminate.
+      + (* Cache.Remove(hashes) *)
+        apply (removal_ok_of_lookup (d_cap d) _ (fun k => mem_str k hs)); [exact HI | | |reflexivity].
+        * apply (inv_nodup names_of (d_cap d)), remove_hashes_inv, HI.
+        * intros k. apply (remove_hashes_lookup (d_cap d)), HI.
+      + (* Cache.RemoveManaged(subjects) *)
+        unfold remove_managed.
+        apply (removal_ok_of_lookup (d_cap d) _ (fun k => mem_str k (managed_queue (d_st d) sj))); [exact HI | | |].
+        * apply (inv_nodup names_of (d_cap d)), remove_hashes_inv, HI.
+        * intros k. apply (remove_hashes_lookup (d_cap d)), HI.
+        * intros k c E. symmetry. apply (managed_queue_mem (d_cap d)); [exact HI | exact E].
       + apply (writeback_ok_of_rel P_ocsp same_but_ocsp P_ocsp_refl P_ocsp_pb (d_cap d)); [exact HI|].
         apply (same_but_wb_rel P_ocsp (fun e => set_ocsp e (c_ocsp c))); [|apply write_back_effect].
         intros e. destruct e; reflexivity.
